@@ -1,4 +1,5 @@
 import SgModel.Lemmas.SnapFSCrash
+import SgModel.Lemmas.SnapFSChain
 /-!
 # C14 — imported snapshots survive restart and crashes during persistence
 
@@ -49,6 +50,19 @@ theorem C14_never_corrupt (hist : List Nat) (b k p : Nat) :
   · rcases C14_restore_after_power_loss_partial hist b k p with h | h <;> rw [h]
     · exact lastOf_ne_corrupt hist
     · simp
+
+/-- **Crash, restart, import again, crash again**: the persist of `b2` may start from whatever
+directory a crash inside the persist of `b1` left behind (a left-over tmp file, the new final
+file under the old marker, a final file without a marker).  Wherever the second crash falls,
+a restart restores what a restart right after the first crash would have restored, or `b2`. -/
+theorem C14_crash_restart_persist_partial (hist : List Nat) (b1 b2 k1 k2 : Nat) :
+    restoreProcess (run ((persistSteps false b2).take k2)
+        (run ((persistSteps false b1).take k1) (persistAll false hist)))
+      = restoreProcess (run ((persistSteps false b1).take k1) (persistAll false hist))
+    ∨ restoreProcess (run ((persistSteps false b2).take k2)
+        (run ((persistSteps false b1).take k1) (persistAll false hist)))
+      = .ok b2 :=
+  chain_shape (shape_persistAll hist) b1 b2 k1 k2
 
 /-- **Clean restart** (and power loss after the acknowledgement): the last acknowledged
 snapshot is restored — `_partial`: the *last*, not all of them (known finding). -/
